@@ -71,11 +71,13 @@ def register(prop):
          assumptions=["alive-about-self from a foreign address, with a malformed/short version vector is in the may-ignore class (only the unconditional half is checked)",
                       "accusations at the largest representable incarnation are excluded by the statement"])
 
-    prop("C06", [dict(scn="C06", quick=20000, thorough=1500000, wall_quick=100, wall_thorough=1500)],
+    prop("C06", [dict(scn="C06", quick=20000, thorough=1500000, wall_quick=100, wall_thorough=1500), dict(scn="C06I", quick=3000, thorough=300000, wall_quick=60, wall_thorough=900)],
          "bench mode: real node knowing m in {1..40} peers (crosses n-2<k both ways), SuspicionMult/SuspicionMaxTimeoutMult 1-8, starts suspecting px (own evidence or another "
          "accuser) at t_s; timed script of 0-10 confirmations (distinct peers, duplicates, the accuser, the observer, the suspect, strangers, lower/higher incarnation) at "
          "instants incl. +-1ns/+-2ms around the minimum, optionally refutation (+re-suspicion), third-party dead, leave; reference Lifeguard timer written from the paper; "
-         "death instant compared in exact virtual time (tolerance 3ms + 0.1% of the maximum timeout); non-trivial = run reached a verdict; distinct = distinct (config, script) tuples",
+         "death instant compared in exact virtual time (tolerance 3ms + 0.1% of the maximum timeout); non-trivial = run reached a verdict; distinct = distinct (config, script) tuples. "
+         "C06I: the timeout callback and a refutation (optionally followed by a re-suspicion) delivered -1us..+1us around the timer instant are interleaved by the scheduler at the "
+         "susptimeout / susptimeout2 (after the validation, before the action) / alive / dead / suspect yield sites; whatever the order, the refuted peer must end up listed at the refuting incarnation",
          assumptions=["cluster size n for the timeout = number of known nodes incl. observer and suspect", "tolerance covers the library's millisecond floor and its 1/1000 node-scale truncation"])
 
     prop("C19", [dict(scn="C19", quick=6000, thorough=500000, wall_quick=120, wall_thorough=1800)],
